@@ -140,7 +140,8 @@ def main():
         try:
             terms = [mod.to_coq(cases[i], observations[i]) for i in emit_idx]
             fails, corr_err = common.run_coq_cases(
-                mod.COQ_MODULE, terms, header=getattr(mod, "COQ_HEADER", ""), shard=getattr(mod, "SHARD", 250)
+                mod.COQ_MODULE, terms, header=getattr(mod, "COQ_HEADER", ""), shard=getattr(mod, "SHARD", 250),
+                check_fn=getattr(mod, "COQ_CHECK", "check"), case_type=getattr(mod, "COQ_CASE_TYPE", "case")
             )
             corr_fail = [emit_idx[k] for k in fails]
         except Exception as e:
@@ -227,7 +228,8 @@ def main():
         trusted_base=["Coq 8.16.1 kernel incl. vm_compute (no native_compute)"] + [f"axiom {a}" for a in props.get("axioms", [])]
         + ["harness/translate.py (source facts)", "correspondence harness (generators, drivers, Coq emission)"],
         theorems=props.get("printed", []),
-        evaluations=len(cases),
+        evaluations=sum(getattr(mod, 'weight', lambda c: 1)(c) for c in cases),
+        cases=len(cases),
         distinct_nontrivial=nontriv,
         rule=mod.RULE,
         samples=samples,
